@@ -70,11 +70,11 @@ PROPS = {
         explanation="Sequential parts: Send's lookup/event construction with graph.process replaced by a recording stub; linkNodes for all lengths 0..5; RegisterPipeline builds the list from the currently registered nodes (C05 harness); graph.process/doProcess executed with cooperative scheduling on one schedule for all outcome vectors (order, at-most-once, exact event hand-over). All-schedule reasoning: see EO jobs. Plus node objects shared between pipelines (invoked once per listing pipeline), two overlapping Sends sharing no mutable dispatch state (lockset), and the other-type frame of every registry mutator.",
         jobs=[dict(harness=BROKER_H, entries=r"^H_C01_Send$", params=dict(quick=dict(K=2, L=2), thorough=dict(K=3, L=3)), shards=dict(quick=1, thorough=4),
                    overrides=["(*github.com/hashicorp/eventlogger.graph).process=verifStubProcess"]),
-              dict(harness=BROKER_H, entries=r"^H_C01_linkNodes$|^H_C01_shared_nodes$|^H_C01_two_sends$|^H_C05_repeated_ids$", params=dict(quick=dict(LL=5, NR=4), thorough=dict(LL=5, NR=5))),
+              dict(harness=BROKER_H, entries=r"^H_C01_linkNodes$|^H_C01_shared_nodes$|^H_C01_two_sends$|^H_C05_repeated_ids$|^H_C01_send_after_odd_removals$", params=dict(quick=dict(LL=5, NR=4), thorough=dict(LL=5, NR=5)), shards=dict(quick=1, thorough=1, H_C01_send_after_odd_removals=8)),
               # which node objects a registered pipeline traverses: the list RegisterPipeline builds from any registry (inductive step)
               dict(harness=BROKER_H, entries=r"^H_C05_RegisterPipeline$|^H_C07_pipeline_other_type$", params=dict(quick=dict(K=2, L=2), thorough=dict(K=3, L=3)), shards=dict(quick=16, thorough=16, H_C07_pipeline_other_type=8)),
               dict(harness=BROKER_H, entries=r"^H_C01_process_seq$", params=dict(quick=dict(P=2, N=2), thorough=dict(P=3, N=3)), shards=dict(quick=4, thorough=16))],
-        must_reach=["C01.send.known", "C01.send.unknown", "C01.link.ok", "C01.process.end", "C05.register.ok", "C01.shared.end", "C01.two-sends.end", "C05.repeated.accepted"],
+        must_reach=["C01.send.known", "C01.send.unknown", "C01.link.ok", "C01.process.end", "C05.register.ok", "C01.shared.end", "C01.two-sends.end", "C05.repeated.accepted", "C01.odd-removals.end"],
         bounds=dict(quick="P<=2 pipelines x 2 nodes; list length<=5", thorough="P<=3 x 2..3 nodes"),
         trusted_base=COMMON_TRUST,
     ),
@@ -150,8 +150,8 @@ PROPS["C03"] = dict(
     jobs=[dict(EO_JOB, eo_queries=["twin", "D", "R", "T", "U", "W", "C"]),
           dict(harness=BROKER_H, entries=r"^H_C12_reentry_vs_writer$", params=dict(quick={}, thorough={}), shards=dict(quick=4, thorough=8), maxswitches=dict(quick=3, thorough=5), instrument_locks=True),
           # a Send after any Broker call (successful or early-returning) returns: no call leaves a lock behind
-          dict(harness=BROKER_H, entries=r"^H_C12_every_call_releases$|^H_C12_reentry$", params=dict(quick={}, thorough={}), shards=dict(quick=4, thorough=4))],
-    must_reach=["C12.every-call.end", "C12.reentry.end"],
+          dict(harness=BROKER_H, entries=r"^H_C12_every_call_releases$|^H_C12_reentry$|^H_C01_send_after_odd_removals$", params=dict(quick={}, thorough={}), shards=dict(quick=4, thorough=4, H_C01_send_after_odd_removals=8))],
+    must_reach=["C12.every-call.end", "C12.reentry.end", "C01.odd-removals.end"],
     bounds=dict(quick="all 15 ordered shapes with P<=3 pipelines x N_i in {2,3} nodes; all schedules, cancel instants (never/anywhere), outcomes, node delays", thorough="P<=3 x N_i in {2,3,5} (40 ordered shapes) + P=4 x N_i in {2,3} (16) + (2,2,2,5), (5,3,2,2), 4x4; larger 4- and 5-pipeline shapes are outside the claim (solver budget)"),
     assumptions=["received Status values are havocked in the automata (control never depends on them; contents are checked on the sequential harness)", "hand-written Go channel/select/WaitGroup/context semantics of the composer (eo_compose.py) is trusted; latency in seconds is not expressible (enabledness instead)"],
     trusted_base=COMMON_TRUST + ["eo_compose.py: event-order semantics of unbuffered channels, select, close, WaitGroup, context cancellation"],
@@ -225,7 +225,9 @@ PROPS["C09"] = dict(
     assumptions=["payload shapes outside the catalogue (protobuf structpb, deeper nesting, slices of Taggables) are not covered", "tags are the concrete tags of the catalogue types (no symbolic tag strings)", "reflect / copystructure / pointerstructure semantics are our model of those libraries"],
     trusted_base=COMMON_TRUST + ["engine/symex/reflectmodel.go", "engine/symex/cryptomodel.go"],
 )
-PROPS["C10"] = dict(PROPS["C09"], jobs=PROPS["C09"]["jobs"] + [dict(dir=ENC_DIR, harness=ENC_H, entries=r"^H_C16_rotate$", params=dict(quick={}, thorough={}), shards=dict(quick=4, thorough=8))], must_reach=PROPS["C09"]["must_reach"] + ["C16.rotate.end"], explanation=REFLECT_NOTE + "The caller's event and payload are compared leaf by leaf with a snapshot taken before Process; the forwarded event must be a distinct object graph of the same dynamic type and shape (lengths, keys, non-string values); all-none overrides and nil/zero payloads forward the same event.")
+PROPS["C09"]["jobs"].append(dict(dir=ENC_DIR, harness=ENC_H, entries=r"^H_C16_rotate$", params=dict(quick={}, thorough={}), shards=dict(quick=4, thorough=8)))
+PROPS["C09"]["must_reach"].append("C16.rotate.end")
+PROPS["C10"] = dict(PROPS["C09"], explanation=REFLECT_NOTE + "The caller's event and payload are compared leaf by leaf with a snapshot taken before Process; the forwarded event must be a distinct object graph of the same dynamic type and shape (lengths, keys, non-string values); all-none overrides and nil/zero payloads forward the same event.")
 
 _TECH = {
  "C01": "symbolic execution of go/ssa (SMT, z3) + event-order SMT encoding of all schedules over thread automata extracted from the SSA",
